@@ -60,14 +60,15 @@ def run_impl(case):
   from matched_markets.methodology import tbrmmdata, geoeligibility as G
   t0 = pd.Timestamp('2020-01-01')
   cv = (lambda g: g) if case['int_ids'] else str
-  df = pd.DataFrame([{'geo': cv(g), 'date': t0 + pd.Timedelta(days=d), 'response': v, 'other': 1} for g, d, v in case['rows']])
+  rc = 'response' if case['seed'] % 3 else 'net sales'       # the response column is named by the caller
+  df = pd.DataFrame([{'geo': cv(g), 'date': t0 + pd.Timedelta(days=d), rc: v, 'other': 1, 'response2': -1.0} for g, d, v in case['rows']])
   before = df.copy(deep=True)
   ge = None
   if case['elig'] is not None:
     ge = G.GeoEligibility(pd.DataFrame([{'geo': cv(g), 'control': TYPES[t][0], 'treatment': TYPES[t][1], 'exclude': TYPES[t][2]}
                                         for g, t in case['elig'].items()]))
   try:
-    data = tbrmmdata.TBRMMData(df, 'response', ge)
+    data = tbrmmdata.TBRMMData(df, rc, ge)
   except ValueError as e:
     return {'outcome': 'ValueError', 'msg': str(e)[:100]}
   except Exception as e:
@@ -85,8 +86,8 @@ def run_impl(case):
   other = None
   try:
     df2 = df.copy(deep=True)
-    df2['response'] = df2['response'] * 3.0 + 1.0
-    other = tbrmmdata.TBRMMData(df2, 'response', ge)
+    df2[rc] = df2[rc] * 3.0 + 1.0
+    other = tbrmmdata.TBRMMData(df2, rc, ge)
   except Exception:
     other = None
   res['interference'] = []
